@@ -183,6 +183,10 @@ class Minimiser:
                     del o['fault']
                     cands.append(o)
                     f = op['fault']
+                    if f.get('exc'):
+                        f2 = dict(f)
+                        del f2['exc']
+                        cands.append(dict(op, fault=f2))
                     if f['kind'] == 'F5' and f.get('mode') == 'func':
                         cands.append(dict(op, fault=dict(f, mode='nth')))
                 if 'entry' in op:
@@ -191,7 +195,7 @@ class Minimiser:
                     cands.append(o)
                 if op.get('pin'):
                     cands.append(dict(op, pin=0))
-                for k in ('tags', 'nat'):
+                for k in ('tags', 'nat', 'closing'):
                     if k in op:
                         o = dict(op)
                         del o[k]
